@@ -347,6 +347,63 @@ def w_dtype(S, item):
     return _with_nl(_w_dtype)(S, item)
 
 
+def _backward_dtype(S, rec, label, p, res):
+    """dtype provenance of one backward pass: cotangents carry the dtype of the forward outputs ('in'); every
+    gradient handed back must carry it too, and nothing on the way may be cast, stored into a buffer of another
+    dtype, or convolved with a weight that does not follow the module"""
+    from ..pyinterp import StaticMethod, PyFunc
+    from ..domain import Base
+    from .dwtlib import flatten_out
+    outs = [o for o in flatten_out(rec.out) if isinstance(o, DataT)]
+    if not outs or any(getattr(o, 'nl', None) for o in outs):
+        return []
+    bwd = rec.cls.lookup('backward')
+    if isinstance(bwd, StaticMethod):
+        bwd = bwd.func
+    if not isinstance(bwd, PyFunc):
+        return []
+    cots = [Base('g%d' % i, o.dims, dtype=o.dtype).tensor(origin='arg') for i, o in enumerate(outs)]
+    S.take_events()
+    S.interp.nograd += 1
+    try:
+        o = S.run(bwd, rec.ctx, *cots)
+    finally:
+        S.interp.nograd = 0
+    evs = S.take_events()
+    S.take_findings()
+    res['cmp'] += 1
+    res.setdefault('backward', 0)
+    res['backward'] += 1
+    out = []
+    name = '%s.backward' % rec.cls.name
+    if o.kind != 'ok':
+        return out            # whether backward runs at all is decided by the adjoint properties
+    grads = o.value if isinstance(o.value, tuple) else (o.value,)
+    for i, g in enumerate(grads):
+        if isinstance(g, DataT) and not (g.ndim == 0 and g.is_zero()) and g.dtype != 'in':
+            out.append(finding('R-DTYPE', name, 'gradient-dtype:%s' % g.dtype,
+                               '%s with %s: gradient %d returned by %s has dtype provenance %s, not the dtype of the '
+                               'cotangent' % (label, p, i, name, g.dtype)))
+    for e in evs:
+        d = None
+        if e['kind'] == 'dtype-cast' and e['src'] != e['dst']:
+            d = finding('R-DTYPE', name, 'cast:%s->%s' % (e['src'], e['dst']),
+                        'a gradient tensor is cast from %s to %s in the backward pass' % (e['src'], e['dst']))
+        elif e['kind'] == 'dtype-cast-on-store':
+            d = finding('R-DTYPE', name, 'store-cast:%s->%s' % (e['src'], e['dst']),
+                        'a %s gradient is stored into a %s tensor in the backward pass' % (e['src'], e['dst']))
+        elif e['kind'] == 'conv-dtypes' and not (e['data'] == 'in' and e['weight'] in ('module', 'in')):
+            d = finding('R-DTYPE', name, 'conv-dtypes:%s/%s' % (e['data'], e['weight']),
+                        'backward convolves a gradient (%s) with a weight whose dtype is %s' % (e['data'], e['weight']))
+        if d is not None:
+            loc = e['loc']
+            d['file'], d['line'], d['function'], d['statement'] = loc.file, loc.line, loc.func, loc.text
+            out.append(d)
+    if out:
+        res['diff'] = 1
+    return out
+
+
 def _w_dtype(S, item):
     kind, ptuple = item
     p = dict(ptuple)
@@ -366,12 +423,22 @@ def _w_dtype(S, item):
         S.take_findings()
         from .. import nonlin as _nl
         rb0 = len(_nl.REBASE_LOG)
-        o = S.run(f, *args)
+        S.libs.apply_log = []
+        # every tensor argument of every autograd Function is taken to require grad, so that each backward
+        # computes all of its gradients
+        S.libs.needs_override = (lambda cls, a: tuple(isinstance(v, DataT) for v in a)) if contig else None
+        try:
+            o = S.run(f, *args)
+        finally:
+            S.libs.needs_override = None
         res['cmp'] += 1
         evs = S.take_events()
         S.take_findings()
         if o.kind != 'ok':
             continue
+        if contig:
+            for rec in list(S.libs.apply_log):
+                res['findings'] += _backward_dtype(S, rec, label, p, res)
         outs = entries.flatten(o.value)
         if contig:
             for ti, t in enumerate(outs):
